@@ -898,7 +898,11 @@ func (p *Policy) sanitizeStyles(attr html.Attribute, elementName string) html.At
 	}
 
 	//Add semi-colon to end to fix parsing issue
-	attr.Val = strings.TrimRight(attr.Val, " ")
+	//
+	// white space of any kind may follow the last declaration (styles are
+	// often written one declaration per line); left in place it would hide
+	// the final semi-colon and the whole style would fail to parse
+	attr.Val = strings.TrimRight(attr.Val, " \t\n\f\r")
 	if len(attr.Val) > 0 && attr.Val[len(attr.Val)-1] != ';' {
 		attr.Val = attr.Val + ";"
 	}
@@ -976,7 +980,7 @@ decLoop:
 // such a style would be judged differently, or not at all, by whoever parses
 // the output next.
 func styleReadsBack(style string, clean []string) bool {
-	style = strings.TrimRight(style, " ")
+	style = strings.TrimRight(style, " \t\n\f\r")
 	if len(style) > 0 && style[len(style)-1] != ';' {
 		style = style + ";"
 	}
